@@ -1,5 +1,8 @@
 """C22 - WebAssembly execution (ppci.wasm.instantiate, targets python and native) vs V8, bit for bit.
 
+Second generation (sec "Y"): (G) memory.grow sequences on fresh instances, (Q) comparisons as conditions, (B) bulk memory, (R) reference
+types / table instructions, (S) start functions and globals of every type, (V) multi-value inside a module.
+
 Sections: (N) every numeric operator as a one-instruction function on the full product of boundary operands,
 (M) loads/stores of every width/signedness at edge addresses with memory snapshots, memory.size/grow,
 (C) control skeletons with a trace global, (X) calls (direct/indirect/imported/recursive), globals, select, drop,
@@ -17,7 +20,18 @@ RULE = ("(N) each of the 136 numeric operators (MVP + sign-extension + saturatin
         "signs, -0.0, denormals, ties, 2^31/2^32/2^63/2^64 neighbours); (M) 14 loads and 9 stores x offset immediates {0,4,(65535,0xffffffff)} x "
         "edge addresses {0..3,5,page-9..page+1,-1,-2^31} with a memory snapshot after every store, memory.size/grow sequences with and without "
         "max; (C) every control skeleton of nesting <=1 (quick) / <=2 (thorough) on all condition-bit vectors x index {0,1,2,3,4,-1}; (X) 15 "
-        "hand-built call/global/select/start/segment modules; x targets {python, native}; distinct non-trivial = distinct (operator, V8 outcome)")
+        "hand-built call/global/select/start/segment modules; second generation: (G) memory.grow: every sequence of grow amounts of length <=2 over "
+        "{0,1,2,-1} (thorough: <=3 over {0,1,2,3,65535,65536,-1,-2^31}) plus one scripted 8-step sequence, each on a fresh instance, x memory "
+        "{1 page no max, 1..2, imported 1..2} (thorough also 1..1, 1..3, 0..2), with memory.size, zero-check of every new page, store/load of the last "
+        "byte of every page and a memory snapshot after every step, grow+size in one expression, accesses just beyond the grown memory; (Q) every "
+        "comparison operator (34) as condition of if / br_if / select / local+if / eqz+if / value on the V3 (ints) and 5x5 incl. nan,-0.0 (floats) "
+        "operand product; (B) bulk memory: memory.fill/copy/init, data.drop on a one-page memory, full product of edge destination/source/length "
+        "operands incl. zero length at/after the end, 2^32-1, overlap, passive/empty/dropped/active segments; (R) reference types: table.get/set, "
+        "ref.null/func/is_null, typed select, table.size/grow/fill/copy/init, elem.drop on one funcref table 4..8 with active, passive and "
+        "declarative segments, full edge-operand products, the table read back through is_null+call_indirect after every group; (S) start "
+        "functions (global of each type x own/with imported global of that type; stores, memory.grow in start; three trapping start functions) "
+        "and exported mutable globals read back; (V) multi-value inside a module (two/three-result calls, block/if/loop parameters); x targets "
+        "{python, native}; distinct non-trivial = distinct (operator, V8 outcome)")
 ASSUMPTIONS = [
     "reference engine: node v20 / V8 on the binary produced by the own encoder (wasmgen.encode), which V8 validates",
     "floats cross the boundary as bit patterns; a NaN result equals any NaN of the same type; traps are compared as trap / no trap",
@@ -27,6 +41,15 @@ ASSUMPTIONS = [
     "state (globals/memory) is compared after calls on which both sides agree about trapping; after a V8-trapping call only when the call starts "
     "from a reset state (control skeletons)",
     "NotImplementedError from ppci = unsupported feature, counted and listed, not a violation",
+    "families B, R, V give ppci the module as WAT text (own renderer, flat style) because ppci's binary reader/writer know neither bulk-memory nor "
+    "reference-type instructions, passive segments or type-index block types (C21 counts that as unsupported); V8 gets the own binary of the same AST",
+    "outside the supported feature set (recorded, not enumerated): exported functions with several results (ppci's export API has no way to return "
+    "them), externref tables (NotImplementedError 'Non function pointer tables'), more than one table or memory, imported f32/f64 globals "
+    "(NotImplementedError in eval_expression), imported memories/globals on the native target ('Cannot import')",
+    "trapping bulk operations are ordered last inside each operand product (predicted from the specification only to save forked processes; V8 "
+    "alone decides what is expected); state changes of a call on which V8 traps are not compared (it runs in a forked process)",
+    "a start function on which V8 traps must make ppci's instantiate raise; a returned instance or a killed process is a violation",
+    "violation keys end in the target (python | native), one key per target, never 'both'",
 ]
 CLAIM = {"text": "for every enumerated (module, invocation) both ppci execution targets return V8's result bits, trap exactly when V8 traps, "
                  "and leave the same exported globals and memory",
@@ -136,7 +159,8 @@ def result_class(want, got):
 TRAP_KINDS = [("unreachable", "unreachable"), ("divide by zero", "int-div-zero"), ("remainder by zero", "int-div-zero"),
               ("unrepresentable in integer", "float-unrepresentable"), ("divide result unrepresentable", "int-overflow"),
               ("memory access out of bounds", "oob-memory"), ("table index is out of bounds", "oob-table"),
-              ("signature mismatch", "indirect-call-type"), ("null function", "indirect-call-type"), ("call stack", "stack-exhausted")]
+              ("table access out of bounds", "oob-table"), ("element segment out of bounds", "oob-elem-segment"),
+              ("data segment", "oob-data-segment"), ("signature mismatch", "indirect-call-type"), ("null function", "indirect-call-type"), ("call stack", "stack-exhausted")]
 
 
 def trap_kind(msg):
@@ -475,6 +499,429 @@ def extra_cases():
     return out
 
 
+
+# ---------------------------------------------------------------- second-generation families (G, B, R, Q, S, V)
+
+GROW_AMOUNTS_Q = [0, 1, 2, -1]
+GROW_AMOUNTS_T = [0, 1, 2, 3, 65535, 65536, -1, -2 ** 31]
+GROW_CONFIGS = [("max-none", (1, None), False), ("max-1", (1, 1), False), ("max-2", (1, 2), False), ("max-3", (1, 3), False),
+                ("min0-max-2", (0, 2), False), ("imported-1-2", (1, 2), True)]
+GROW_LONG = [1, 0, 1, 1, 2, 65536, -1, 0]
+GROW_CONFIGS_QUICK = ("max-none", "max-2", "imported-1-2")
+
+
+def grow_sequences(tier, lim):
+    """Every sequence of grow amounts of length <= 2 (quick) / <= 3 (thorough) over the tier's alphabet, plus one long scripted sequence.
+    An amount that would make V8 allocate exactly 65536 pages (4 GiB; may fail for lack of memory) is left out: the reference must be deterministic."""
+    import itertools
+    amounts = GROW_AMOUNTS_Q if tier == "quick" else GROW_AMOUNTS_T
+    n = 2 if tier == "quick" else 3
+    seqs = [s for k in range(1, n + 1) for s in itertools.product(amounts, repeat=k)] + [tuple(GROW_LONG)]
+    out = []
+    for sq in seqs:
+        size, ok = lim[0], True
+        for a in sq:
+            ua = a & 0xFFFFFFFF
+            if lim[1] is None and size + ua == 65536:
+                ok = False
+            if size + ua <= (65536 if lim[1] is None else lim[1]):
+                size += ua
+        if ok:
+            out.append(sq)
+    return out
+
+
+def case_G(tier, cfg, seq):
+    """memory.grow sequence `seq` on a fresh instance of memory configuration `cfg`.  After every grow: memory.size, then store/load of the
+    last byte of every page that V8's model says exists (value = step tag), and a load of the first byte of each new page (must be 0).
+    At the very end: load and store at the first byte beyond the memory (V8 traps)."""
+    from vf.gen import wasmgen as W
+    I32, Ins, lget, FT = W.I32, W.Ins, W.lget, W.FT
+    name, lim, imported = [c for c in GROW_CONFIGS if c[0] == cfg][0]
+    fs = [(FT((), (I32,)), (), [Ins("memory.size")]),
+          (FT((I32,), (I32,)), (), [Ins("memory.grow", None, [lget(0)])]),
+          (FT((I32,), (I32,)), (), [Ins("i32.load8_u", (0, 0), [lget(0)])]),
+          (FT((I32, I32), ()), (), [Ins("i32.store8", (0, 0), [lget(0), lget(1)])]),
+          (FT((I32,), (I32,)), (), [Ins("i32.load", (2, 0), [lget(0)])]),
+          # grow and size in one expression: (memory.grow n) * 1000 + memory.size  (evaluation order: grow first)
+          (FT((I32,), (I32,)), (), [Ins("i32.add", None, [Ins("i32.mul", None, [Ins("memory.grow", None, [lget(0)]), W.i32c(1000)]), Ins("memory.size")])])]
+    extra = {"imports": [W.Imp("env", "mem", "memory", lim)]} if imported else {"mem": lim, "exports": [("mem", "memory", 0)]}
+    m = W.module_of_funcs(fs, extra)
+    calls, info = [], []
+
+    def add(fn, args, ret, op, snap=False):
+        calls.append((fn, args, ret, snap))
+        info.append({"op": op, "unit": "G:%s" % cfg, "ci": len(calls) - 1})
+
+    size = lim[0]
+    add("e0", [], I32, "memory.size")
+    for step, a in enumerate(seq):
+        old = size
+        ua = a & 0xFFFFFFFF
+        if size + ua <= (65536 if lim[1] is None else lim[1]):
+            size += ua
+        if step == len(seq) - 1 and len(seq) > 1:
+            add("e5", [(I32, a)], I32, "memory.grow")           # last step of a longer sequence: grow+size in one expression
+        else:
+            add("e1", [(I32, a)], I32, "memory.grow")
+        add("e0", [], I32, "memory.size", snap=not imported)
+        for pg in range(old, size):
+            add("e2", [(I32, pg * W.PAGE)], I32, "i32.load8_u@o0")            # fresh pages read as zero
+            add("e4", [(I32, (pg + 1) * W.PAGE - 4)], I32, "i32.load@o0")
+        for pg in range(size):
+            add("e3", [(I32, (pg + 1) * W.PAGE - 1), (I32, 0x41 + step)], None, "i32.store8@o0")
+            add("e2", [(I32, (pg + 1) * W.PAGE - 1)], I32, "i32.load8_u@o0")
+    if tier != "quick" or tuple(seq) == tuple(GROW_LONG):
+        # (accesses beyond the grown memory: one forked process per target; quick tier: only after the long sequence)
+        add("e2", [(I32, size * W.PAGE)], I32, "i32.load8_u@o0")
+        add("e3", [(I32, size * W.PAGE), (I32, 1)], None, "i32.store8@o0")
+    wit = {"fam": "G", "tier": tier, "cfg": cfg, "seq": list(seq)}
+    return {"sec": "Y", "m": m, "calls": calls, "info": info, "stateless": False, "wit": wit, "units": None, "rebuild": None}
+
+
+CMP_CONSUMERS = ("if", "br_if", "select", "local", "eqz-if", "value")
+
+
+def units_Q():
+    """Every comparison operator (32 binary, 2 eqz) as the condition of every consumer; operands: V3 product (ints) / 5x5 incl. nan, -0.0 (floats)."""
+    from vf.gen import wasmgen as W
+    I32, Ins, lget, FT, i32c = W.I32, W.Ins, W.lget, W.FT, W.i32c
+    units = []
+    for name, _, params, result in W.NUMERIC:
+        short = name.split(".")[1]
+        if not (short in ("eqz", "eq", "ne") or short[:2] in ("lt", "gt", "le", "ge")) or result != I32:
+            continue
+        n = len(params)
+        calls = W.arg_vectors(params, 3)
+        for cons in CMP_CONSUMERS:
+            cond = Ins(name, None, [lget(i) for i in range(n)])
+            locs = ()
+            if cons == "if":
+                body = [W.If(I32, [cond], [i32c(11)], [i32c(22)])]
+            elif cons == "br_if":
+                body = [W.Blk("block", I32, [i32c(11), cond, Ins("br_if", 0), Ins("drop"), i32c(22)])]
+            elif cons == "select":
+                body = [Ins("select", None, [i32c(11), i32c(22), cond])]
+            elif cons == "local":
+                locs = (I32,)
+                body = [Ins("local.set", n, [cond]), W.If(I32, [lget(n)], [Ins("i32.add", None, [lget(n), i32c(10)])], [i32c(22)])]
+            elif cons == "eqz-if":
+                body = [W.If(I32, [Ins("i32.eqz", None, [cond])], [i32c(11)], [i32c(22)])]
+            else:
+                body = [Ins("i32.add", None, [cond, Ins("i32.mul", None, [cond, i32c(10)])])]
+            units.append(("cond-%s/%s|%s" % (cons, key_op(name), name), FT(params, (I32,)), locs, body, calls))
+    return units
+
+
+def build_plain_l(sec, units, base_wit):
+    """like build_plain, units carry locals: [(op, FT, locals, body, calls)]"""
+    from vf.gen import wasmgen as W
+    m = W.module_of_funcs([(ft, l, body) for _, ft, l, body, _ in units])
+    calls, info = [], []
+    for j, (op, ft, l, body, cs) in enumerate(units):
+        for ci, args in enumerate(cs):
+            calls.append(("e%d" % j, list(args), ft.results[0] if ft.results else None, False))
+            info.append({"op": op.split("|")[0], "unit": op, "ci": ci})
+    return {"sec": sec, "m": m, "calls": calls, "info": info, "stateless": True, "wit": base_wit,
+            "units": units, "rebuild": lambda us: build_plain_l(sec, us, base_wit)}
+
+
+def scripted(sec, name, m, calls, tier, text=False, stateless=False):
+    """calls: [(export, args, ret, op)]; every call is followed by a snapshot."""
+    cs, info = [], []
+    for ci, (fn, args, ret, op) in enumerate(calls):
+        cs.append((fn, args, ret, True))
+        info.append({"op": op, "unit": name, "ci": ci})
+    from vf.gen import wasmgen as W
+    case = {"sec": sec, "m": m, "calls": cs, "info": info, "stateless": stateless, "wit": {"fam": name, "tier": tier}, "units": None, "rebuild": None}
+    if text:
+        case["text"] = W.wat(m, "flat")
+    return case
+
+
+def _u(x):
+    return x & 0xFFFFFFFF
+
+
+def traps_last(block, traps):
+    """Calls of one product block, those that trap by the specification last and contiguous: a trapping bulk operation has no effect, so the
+    order among the others is unchanged, and each contiguous run of trapping calls costs one forked process only.  (If this prediction were
+    wrong, V8 would still decide what is expected; only the cost would change.)"""
+    return [c for c in block if not traps(c)] + [c for c in block if traps(c)]
+
+
+def case_B(tier):
+    """Bulk memory: memory.fill / memory.copy / memory.init / data.drop on a one-page memory, full product of edge operands."""
+    from vf.gen import wasmgen as W
+    import itertools
+    I32, Ins, lget, FT = W.I32, W.Ins, W.lget, W.FT
+    three = [lget(0), lget(1), lget(2)]
+    t3 = FT((I32, I32, I32), ())
+    fs = [(t3, (), [Ins("memory.fill", None, three)]), (t3, (), [Ins("memory.copy", None, three)]),
+          (t3, (), [Ins("memory.init", 0, three)]), (t3, (), [Ins("memory.init", 2, three)]),
+          (FT((), ()), (), [Ins("data.drop", 0)]), (FT((), ()), (), [Ins("data.drop", 2)]), (FT((), ()), (), [Ins("data.drop", 1)]),
+          (FT((I32,), (I32,)), (), [Ins("i32.load8_u", (0, 0), [lget(0)])])]
+    m = W.module_of_funcs(fs, {"mem": (1, 1), "datas": [(None, b"ABCDEFGH"), (4, b"wxyz"), (None, b"")], "datacount": True, "exports": [("mem", "memory", 0)]})
+    P = W.PAGE
+    big = tier != "quick"
+    calls = []
+    ds = [0, 1, P - 2, P - 1, P, P + 1, -1] + ([2, P - 3, 2 ** 31 - 1, -2 ** 31] if big else [])
+    ns = [0, 1, 2, 3, P, -1] + ([P - 1, P + 1, 2 ** 31] if big else [])
+    blk = [("e0", [(I32, d), (I32, v), (I32, n)], None, "memory.fill") for d, v, n in
+           itertools.product(ds, [0x41, 0x1FF, 0] if not big else [0x41, 0x1FF, 0, -1, 256], ns)]
+    calls += traps_last(blk, lambda c: _u(c[1][0][1]) + _u(c[1][2][1]) > P)
+    calls.append(("e0", [(I32, 0), (I32, 0), (I32, P)], None, "memory.fill"))
+    calls.append(("e2", [(I32, 16), (I32, 0), (I32, 8)], None, "memory.init"))          # pattern ABCDEFGH at 16
+    cd = [0, 1, 16, 17, 20, P - 1, P, -1] + ([15, 18, P - 8, P + 1] if big else [])
+    blk = []
+    for d, sr, n in itertools.product(cd, cd, [0, 1, 3, 8, P, -1]):
+        blk.append(("e1", [(I32, d), (I32, sr), (I32, n)], None, "memory.copy"))
+        if n == 8 and 0 <= d < P - 8 and 0 <= sr < P - 8:
+            blk.append(("e2", [(I32, 16), (I32, 0), (I32, 8)], None, "memory.init"))  # restore the pattern after an overlapping copy
+    calls += traps_last(blk, lambda c: c[0] == "e1" and (_u(c[1][0][1]) + _u(c[1][2][1]) > P or _u(c[1][1][1]) + _u(c[1][2][1]) > P))
+    blk = [("e2", [(I32, d), (I32, sr), (I32, n)], None, "memory.init") for d, sr, n in
+           itertools.product([0, P - 8, P - 7, P - 1, P, -1], [0, 1, 7, 8, 9, -1], [0, 1, 7, 8, 9, -1])]
+    calls += traps_last(blk, lambda c: _u(c[1][0][1]) + _u(c[1][2][1]) > P or _u(c[1][1][1]) + _u(c[1][2][1]) > 8)
+    for d, sr, n in itertools.product([0, P, P + 1], [0, 1], [0, 1]):
+        calls.append(("e3", [(I32, d), (I32, sr), (I32, n)], None, "memory.init"))      # empty passive segment
+    calls += [("e5", [], None, "data.drop"), ("e3", [(I32, 0), (I32, 0), (I32, 0)], None, "memory.init"), ("e5", [], None, "data.drop"),
+              ("e6", [], None, "data.drop"),                                              # dropping an active segment is allowed
+              ("e4", [], None, "data.drop")]
+    for d, sr, n in itertools.product([0, P, P + 1], [0, 1], [0, 1]):
+        calls.append(("e2", [(I32, d), (I32, sr), (I32, n)], None, "memory.init"))      # after data.drop: only n == 0 within bounds is allowed
+    calls.append(("e4", [], None, "data.drop"))
+    calls.append(("e7", [(I32, 16)], I32, "i32.load8_u@o0"))
+    return scripted("Y", "B", m, calls, tier, text=True)
+
+
+def case_R(tier):
+    """Reference types / table instructions on one funcref table (4..8): table.get/set, ref.null/func/is_null, table.size/grow/fill/copy/init, elem.drop."""
+    from vf.gen import wasmgen as W
+    import itertools
+    I32, Ins, lget, FT, i32c = W.I32, W.Ins, W.lget, W.FT, W.i32c
+    t_i = FT((I32,), (I32,))
+    tget = Ins("table.get", None, [lget(0)])
+    fs = [(t_i, (), [Ins("i32.add", None, [lget(0), i32c(1)])]),                                    # e0 = $a
+          (t_i, (), [Ins("i32.mul", None, [lget(0), i32c(3)])]),                                    # e1 = $b
+          (t_i, (), [Ins("ref.is_null", None, [tget])]),                                            # e2 isnull(i)
+          (t_i, (), [W.If(I32, [Ins("ref.is_null", None, [tget])], [i32c(-1)], [Ins("call_indirect", "ti", [i32c(5), lget(0)])])]),   # e3 which(i)
+          (FT((I32,), ()), (), [Ins("table.set", None, [lget(0), Ins("ref.null", "func")])]),       # e4 setnull(i)
+          (FT((I32,), ()), (), [Ins("table.set", None, [lget(0), Ins("ref.func", 0)])]),            # e5 seta(i)
+          (FT((I32, I32), ()), (), [Ins("table.set", None, [lget(0), Ins("table.get", None, [lget(1)])])]),     # e6 mv(i, j)
+          (FT((), (I32,)), (), [Ins("table.size")]),                                                # e7 size
+          (t_i, (), [Ins("table.grow", None, [Ins("ref.func", 1), lget(0)])]),                      # e8 grow with $b
+          (t_i, (), [Ins("table.grow", None, [Ins("ref.null", "func"), lget(0)])]),                 # e9 grow with null
+          (FT((I32, I32), ()), (), [Ins("table.fill", None, [lget(0), Ins("ref.func", 0), lget(1)])]),          # e10 fill a
+          (FT((I32, I32), ()), (), [Ins("table.fill", None, [lget(0), Ins("ref.null", "func"), lget(1)])]),     # e11 fill null
+          (FT((I32, I32, I32), ()), (), [Ins("table.copy", None, [lget(0), lget(1), lget(2)])]),    # e12 copy
+          (FT((I32, I32, I32), ()), (), [Ins("table.init", 1, [lget(0), lget(1), lget(2)])]),       # e13 init from passive segment 1
+          (FT((), ()), (), [Ins("elem.drop", 1)]),                                                  # e14
+          (FT((I32,), (I32,)), (), [Ins("ref.is_null", None, [Ins("ref.null", "func")]),
+                                    Ins("i32.add", None, [Ins("i32.shl", None, [Ins("ref.is_null", None, [Ins("ref.func", 0)]), i32c(1)])])]),  # e15: 1
+          (FT((I32, I32, I32), (I32,)), (), [Ins("select.t", I32, [lget(0), lget(1), lget(2)])])]   # e16 typed select
+    m = W.module_of_funcs(fs, {"table": (4, 8), "elems": [(0, [0, 1]), (None, [1, 0, None]), ("declare", [0, 1])]})
+    W._patch_ci([x for f in m.funcs for x in f.body], {"ti": m.type_index[t_i.key()]})
+    for f in m.funcs:
+        W._patch_ci(f.body, {"ti": m.type_index[t_i.key()]})
+    calls = []
+
+    def observe(n=9):
+        for i in list(range(n)) + [-1]:
+            calls.append(("e3", [(I32, i)], I32, "table.get"))
+    calls.append(("e15", [(I32, 0)], I32, "ref.is_null"))
+    calls += [("e16", [(I32, 7), (I32, 9), (I32, c)], I32, "select.t") for c in (0, 1, -1)]
+    calls.append(("e7", [], I32, "table.size"))
+    observe()
+    for i in (0, 3, 4, 7, 8, -1):
+        calls.append(("e2", [(I32, i)], I32, "table.get"))
+    # table.set with an index outside the table comes last in the whole script (`late`): ppci's native code has no bounds check and the
+    # native table lives in a shared mapping, so the stray write of the forked process that runs a V8-trapping call could disturb later calls
+    late = []
+    for i in (2, 0, 3):
+        calls.append(("e5", [(I32, i)], None, "table.set"))
+        calls.append(("e4", [(I32, i)], None, "table.set"))
+        calls.append(("e5", [(I32, i)], None, "table.set"))
+    observe(5)
+    calls.append(("e4", [(I32, 0)], None, "table.set"))
+    for i, j in itertools.product((0, 1, 3), (0, 1, 3, 4, -1)):
+        (late if j in (4, -1) else calls).append(("e6", [(I32, i), (I32, 8 if j == 4 else j)], None, "table.set"))
+    observe(5)
+    for i in (8, 9, -1):
+        late += [("e5", [(I32, i)], None, "table.set"), ("e4", [(I32, i)], None, "table.set")]
+        late += [("e6", [(I32, i), (I32, j)], None, "table.set") for j in (0, 7, 8, -1)]
+    # grow: every amount on the sizes 4, 5, 7, 8
+    for a in (0, 1, 5, -1, 2, 3, 1, 0, 1, 65536, -2 ** 31):
+        calls.append(("e8" if a != 2 else "e9", [(I32, a)], I32, "table.grow"))
+        calls.append(("e7", [], I32, "table.size"))
+    observe()
+    blk = [("e10" if (i + n) % 2 else "e11", [(I32, i), (I32, n)], None, "table.fill") for i, n in itertools.product((0, 3, 7, 8, 9, -1), (0, 1, 2, 8, 9, -1))]
+    calls += traps_last(blk, lambda c: _u(c[1][0][1]) + _u(c[1][1][1]) > 8)
+    observe()
+    calls.append(("e13", [(I32, 0), (I32, 0), (I32, 3)], None, "table.init"))
+    blk = [("e12", [(I32, d), (I32, sr), (I32, n)], None, "table.copy") for d, sr, n in itertools.product((0, 1, 2, 6, 8, 9, -1), (0, 1, 2, 8, -1), (0, 1, 2, 3, 8, -1))]
+    calls += traps_last(blk, lambda c: _u(c[1][0][1]) + _u(c[1][2][1]) > 8 or _u(c[1][1][1]) + _u(c[1][2][1]) > 8)
+    observe()
+    blk = [("e13", [(I32, d), (I32, sr), (I32, n)], None, "table.init") for d, sr, n in itertools.product((0, 5, 6, 8, 9, -1), (0, 1, 3, 4, -1), (0, 1, 3, 4, -1))]
+    calls += traps_last(blk, lambda c: _u(c[1][0][1]) + _u(c[1][2][1]) > 8 or _u(c[1][1][1]) + _u(c[1][2][1]) > 3)
+    observe()
+    calls.append(("e14", [], None, "elem.drop"))
+    for d, sr, n in itertools.product((0, 8, 9), (0, 1), (0, 1)):
+        calls.append(("e13", [(I32, d), (I32, sr), (I32, n)], None, "table.init"))
+    calls.append(("e14", [], None, "elem.drop"))
+    observe()
+    calls += late
+    case = scripted("Y", "R", m, calls, tier, text=True)
+    for c in range(len(case["calls"])):
+        case["calls"][c] = case["calls"][c][:3] + (False,)          # no exported state to snapshot: tables are observed through which(i)
+    return case
+
+
+def cases_S(tier):
+    """Start functions and exported/imported globals of every type: the start function sets a mutable exported global, stores to memory and grows it;
+    afterwards the global is read back through its export and through a getter, set through a setter and read back again."""
+    from vf.gen import wasmgen as W
+    I32, Ins, lget, FT, i32c = W.I32, W.Ins, W.lget, W.FT, W.i32c
+    out = []
+    vals = {W.I32: [-7, 2 ** 31 - 1], W.I64: [2 ** 40 + 5, -2 ** 63], W.F32: [W.f32_bits(1.5), 0xFFC00000], W.F64: [W.f64_bits(-2.25), 0x7FF0000000000000]}
+    for vt in W.VTS:
+        for imported in (False, True):
+            a, b = vals[vt]
+            gi = 1 if imported else 0
+            start_body = [Ins("global.set", gi, [W.const(vt, a)]), Ins("i32.store", (2, 0), [i32c(8), i32c(0x0A0B0C0D)]),
+                          Ins("i32.store8", (0, 0), [i32c(3), Ins("memory.grow", None, [i32c(1)])]),
+                          Ins("i32.store8", (0, 0), [i32c(W.PAGE + 5), Ins("memory.size")])]
+            fs = [(FT((), ()), (), start_body),
+                  (FT((), (vt,)), (), [Ins("global.get", gi)]),
+                  (FT((vt,), ()), (), [Ins("global.set", gi, [lget(0)])]),
+                  (FT((), (vt,)), (), [Ins("global.get", 0)]),
+                  (FT((I32,), (I32,)), (), [Ins("i32.load", (2, 0), [lget(0)])])]
+            extra = {"mem": (1, 3), "globs": [W.Glob(vt, True, W.const(vt, b))], "start": 0, "exports": [("mem", "memory", 0), ("g", "global", gi)]}
+            if imported:
+                extra["imports"] = [W.Imp("env", "gi", "global", (vt, False))]
+            m = W.module_of_funcs(fs, extra)
+            calls = [("e1", [], vt, "start"), ("e3", [], vt, "global.get"), ("e4", [(I32, 8)], I32, "start"), ("e4", [(I32, 0)], I32, "start"),
+                     ("e4", [(I32, W.PAGE + 4)], I32, "start"), ("e2", [(vt, b)], None, "global.set"), ("e1", [], vt, "global.get"),
+                     ("e0", [], None, "start"), ("e1", [], vt, "global.get"), ("e4", [(I32, 0)], I32, "start")]
+            name = "S:%s%s" % (vt, "-imported-global" if imported else "")
+            calls = [(f, args, ret, op + ("/imported-global-module" if imported and op != "start" else "")) for f, args, ret, op in calls]
+            out.append((name, (lambda m=m, calls=calls, name=name: scripted("Y", name, m, calls, tier))))
+    # a start function that traps: instantiation must fail on both sides
+    for kind, body in (("unreachable", [Ins("unreachable")]), ("oob-store", [Ins("i32.store", (2, 0), [i32c(W.PAGE - 2), i32c(1)])]),
+                       ("div-zero", [Ins("drop", None, [Ins("i32.div_s", None, [i32c(1), Ins("global.get", 0)])])])):
+        fs = [(FT((), ()), (), body), (FT((), (I32,)), (), [i32c(1)])]
+        m = W.module_of_funcs(fs, {"mem": (1, 1), "globs": [W.Glob(I32, True, i32c(0))], "start": 0})
+        name = "S:start-traps-" + kind
+        out.append((name, (lambda m=m, name=name: scripted("Y", name, m, [("e1", [], I32, "start")], tier))))
+    return out
+
+
+def case_V(tier):
+    """Multi-value used inside a module (functions with two results called internally, blocks/ifs/loops with parameters); exports return one value."""
+    from vf.gen import wasmgen as W
+    I32, I64, F64, Ins, lget, FT, i32c = W.I32, W.I64, W.F64, W.Ins, W.lget, W.FT, W.i32c
+    t2 = FT((I32,), (I32, I32))
+    tmix = FT((I32,), (I64, F64, I32))
+    tb = FT((I32,), (I32,))
+    tb2 = FT((I32, I32), (I32, I32))
+    fs = [(t2, (), [lget(0), Ins("i32.add", None, [lget(0), i32c(1)])]),                                   # f0: x -> (x, x+1)
+          (tmix, (), [Ins("i64.extend_i32_s", None, [lget(0)]), Ins("f64.convert_i32_s", None, [lget(0)]), Ins("i32.mul", None, [lget(0), i32c(2)])]),
+          (FT((I32,), (I32,)), (), [Ins("call", 0, [lget(0)]), Ins("i32.sub")]),                             # e2: x - (x+1) = -1   (order of results)
+          (FT((I32,), (I32,)), (), [Ins("call", 0, [lget(0)]), Ins("drop")]),                                # e3: first result
+          (FT((I32,), (I32,)), (), [Ins("call", 0, [lget(0)]), Ins("i32.mul", None, [])]),                   # e4: x*(x+1)
+          (FT((I32,), (F64,)), (), [Ins("call", 1, [lget(0)]), Ins("drop"), Ins("drop"), Ins("f64.convert_i64_s")]),                   # e5: first of three
+          (FT((I32,), (F64,)), (F64, I32), [Ins("call", 1, [lget(0)]), Ins("local.set", 2), Ins("local.set", 1), Ins("drop"),
+                                            Ins("f64.add", None, [lget(1), Ins("f64.convert_i32_s", None, [lget(2)])])]),   # e6: f64 + i32 results
+          (FT((I32,), (I32,)), (), [lget(0), W.Blk("block", "tb", [i32c(2), Ins("i32.add")])]),               # e7: block with a parameter
+          (FT((I32,), (I32,)), (), [lget(0), i32c(7), W.Blk("block", "tb2", [Ins("i32.add"), lget(0)]), Ins("i32.sub")]),   # e8: two params, two results
+          (FT((I32, I32), (I32,)), (), [lget(0), W.If("tb", [lget(1)], [i32c(1), Ins("i32.add")], [i32c(2), Ins("i32.sub")])]),   # e9: if with a parameter
+          (FT((I32,), (I32,)), (I32,), [lget(0), W.Blk("loop", "tb", [Ins("local.tee", 1), Ins("i32.const", 1), Ins("i32.sub"), Ins("local.tee", 1), lget(1),
+                                                                       Ins("i32.const", 0), Ins("i32.gt_s"), Ins("br_if", 0)])])]   # e10: loop with a parameter
+    m = W.module_of_funcs(fs, {"types": [tb, tb2]})
+    tix = {"tb": m.type_index[tb.key()], "tb2": m.type_index[tb2.key()]}
+
+    def patch(nodes):
+        for n in nodes:
+            if isinstance(n, W.Blk):
+                if isinstance(n.bt, str) and n.bt in tix:
+                    n.bt = tix[n.bt]
+                patch(n.body)
+            elif isinstance(n, W.If):
+                if isinstance(n.bt, str) and n.bt in tix:
+                    n.bt = tix[n.bt]
+                patch(n.cond), patch(n.then), patch(n.els or [])
+            else:
+                patch(n.kids)
+    for f in m.funcs:
+        patch(f.body)
+    # functions 0 and 1 return several values: not callable through ppci's export API (outside the supported set), keep them unexported
+    m.exports = [e for e in m.exports if e[0] not in ("e0", "e1")]
+    calls = []
+    for fn, ret in (("e2", I32), ("e3", I32), ("e4", I32), ("e5", F64), ("e6", F64), ("e7", I32), ("e8", I32), ("e10", I32)):
+        for x in (0, 1, -1, 5, 2 ** 31 - 1):
+            if fn == "e10" and not 0 <= x <= 5:
+                continue
+            calls.append((fn, [(I32, x)], ret, "multi-value"))
+    for x in (0, 5, -1):
+        for c in (0, 1):
+            calls.append(("e9", [(I32, x), (I32, c)], I32, "multi-value"))
+    case = scripted("Y", "V", m, calls, tier, text=True, stateless=True)
+    for c in range(len(case["calls"])):
+        case["calls"][c] = case["calls"][c][:3] + (False,)
+    return case
+
+
+Q_PER_MODULE = 36
+
+
+def ext_items(tier):
+    """Work items of the second-generation families."""
+    items = []
+    for cfg, lim, imported in GROW_CONFIGS:
+        if tier == "quick" and cfg not in GROW_CONFIGS_QUICK:
+            continue
+        seqs = grow_sequences(tier, lim)
+        for i in range(0, len(seqs), 8):
+            items.append(("G", cfg, i, i + 8))
+    nq = len(units_Q())
+    items += [("Q", i) for i in range((nq + Q_PER_MODULE - 1) // Q_PER_MODULE)]
+    items += [("B",), ("R",), ("V",)]
+    items += [("S", i) for i in range(len(cases_S(tier)))]
+    return items
+
+
+def build_ext(item, tier):
+    """-> list of cases for one work item."""
+    if item[0] == "G":
+        lim = [c for c in GROW_CONFIGS if c[0] == item[1]][0][1]
+        return [case_G(tier, item[1], sq) for sq in grow_sequences(tier, lim)[item[2]:item[3]]]
+    if item[0] == "Q":
+        us = units_Q()[item[1] * Q_PER_MODULE:(item[1] + 1) * Q_PER_MODULE]
+        return [build_plain_l("Y", us, {"fam": "Q", "tier": tier})]
+    if item[0] == "B":
+        return [case_B(tier)]
+    if item[0] == "R":
+        return [case_R(tier)]
+    if item[0] == "V":
+        return [case_V(tier)]
+    return [cases_S(tier)[item[1]][1]()]
+
+
+def rebuild_ext(w):
+    fam = w["fam"]
+    tier = w.get("tier", "quick")
+    if fam == "G":
+        return case_G(tier, w["cfg"], tuple(w["seq"]))
+    if fam == "Q":
+        return build_plain_l("Y", [u for u in units_Q() if u[0] == w["unit"]], {"fam": "Q", "tier": tier})
+    if fam == "B":
+        return case_B(tier)
+    if fam == "R":
+        return case_R(tier)
+    if fam == "V":
+        return case_V(tier)
+    return dict(cases_S(tier))[fam]()
+
+
 def work_items(tier):
     from vf.gen import wasmgen as W
     n_ops = len(W.NUMERIC)
@@ -484,6 +931,7 @@ def work_items(tier):
     n = len(skeleton_units(depth))
     items += [("C", depth, i) for i in range((n + C_PER_MODULE - 1) // C_PER_MODULE)]
     items += [("X", i) for i in range(len(extra_cases()))]
+    items += [("Y", it) for it in ext_items(tier)]
     return items
 
 
@@ -491,6 +939,8 @@ _SK_CACHE = {}
 
 
 def build_case(item, tier):
+    if item[0] == "Y":
+        raise ValueError("Y items build several cases: use build_ext")
     if item[0] == "N":
         return case_N(tier, item[1])
     if item[0] == "M":
@@ -603,9 +1053,10 @@ def one_call(inst, m, spec, log, call):
     return rec
 
 
-def instantiate_ppci(wasm, spec, target, log):
+def instantiate_ppci(wasm, spec, target, log, text=None):
+    """text: WAT given to ppci instead of the binary (families whose instructions ppci's binary reader/writer do not know)."""
     from ppci.wasm import Module, instantiate
-    return instantiate(Module(wasm), imports=make_imports(spec, log), target=target)
+    return instantiate(Module(text if text is not None else wasm), imports=make_imports(spec, log), target=target)
 
 
 CRASH_CAP = 3
@@ -649,7 +1100,7 @@ def execute(emit, case, wasm, spec, todo, risky, target):
         log = []
         try:
             with cpu_limit(600):
-                inst = instantiate_ppci(wasm, spec, target, log)
+                inst = instantiate_ppci(wasm, spec, target, log, case.get("text"))
         except CpuTimeout:
             emit(("inst", ("CpuTimeout", "instantiate exceeded 600 s CPU", "?", "K/hang")))
             return
@@ -710,6 +1161,8 @@ def execute(emit, case, wasm, spec, todo, risky, target):
                 if pid == 0:
                     code = 0
                     try:
+                        import gc
+                        gc.freeze()          # the inherited heap is never collected here: a full collection would copy every page of it
                         os.close(r)
                         devnull = os.open(os.devnull, os.O_WRONLY)
                         os.dup2(devnull, 1)
@@ -794,6 +1247,8 @@ def run_target(case, wasm, spec, risky, target):
             code = 0
             try:
                 import resource
+                import gc
+                gc.freeze()
                 os.close(r)
                 resource.setrlimit(resource.RLIMIT_CPU, (900, 920))
                 devnull = os.open(os.devnull, os.O_WRONLY)
@@ -955,7 +1410,7 @@ def snapshot_difference(ns, ps, p):
 
 
 def report(p, case, fails):
-    """Turn failure records into violations: one key per (operator, kind, class), targets merged, general failures collapsed."""
+    """Turn failure records into violations: one key per (operator, kind, class, target), general failures collapsed."""
     sec = case["sec"]
     # collapse: an operator that is wrong on ordinary operands is wrong in general
     general = set()
@@ -972,14 +1427,14 @@ def report(p, case, fails):
         gk = (op, f["kind"], klass)
         groups.setdefault(gk, {}).setdefault(f["target"], []).append(f)
     for (op, kind, klass), by_t in sorted(groups.items()):
-        targets = sorted(by_t)
-        tname = "both" if len(targets) == 2 else targets[0]
-        first = min((f for fs in by_t.values() for f in fs), key=lambda f: (f["i"], f["target"]))
-        key = "%s/%s/%s/%s" % (op, kind, klass, tname)
-        wit = dict(case["wit"])
-        wit.update(sec=sec, unit=first["unit"], ci=first["ci"], target=first["target"])
-        n = sum(len(v) for v in by_t.values())
-        p.violation(key, "%s [%s target]: %s (%d failing call(s) in this class)" % (first["call"], first["target"], first["what"], n), wit)
+        # one key per target (never "both"): which targets fail together in one case depends on the case, the key must not
+        for tname in sorted(by_t):
+            fs = by_t[tname]
+            first = min(fs, key=lambda f: f["i"])
+            key = "%s/%s/%s/%s" % (op, kind, klass, tname)
+            wit = dict(case["wit"])
+            wit.update(sec=sec, unit=first["unit"], ci=first["ci"], target=first["target"])
+            p.violation(key, "%s [%s target]: %s (%d failing call(s) in this class)" % (first["call"], first["target"], first["what"], len(fs)), wit)
 
 
 def process_case(p, case, node_res, depth=0):
@@ -990,6 +1445,27 @@ def process_case(p, case, node_res, depth=0):
     wasm = W.encode(m)
     spec = W.import_spec(m)
     if not node_res["valid"] or node_res["stage"] != "run":
+        if node_res.get("stage") == "instantiate" and node_res.get("trap") and case["wit"].get("fam", "").startswith("S:start-traps"):
+            # the start function traps in V8: instantiation must fail in ppci as well (no calls are made)
+            tk = trap_kind(str(node_res.get("error")))
+            empty = dict(case, calls=[], info=[])
+            for target in TARGETS:
+                p.add()
+                r = run_target(empty, wasm, spec, [], target)
+                err = r["inst_error"]
+                wit = dict(case["wit"])
+                wit.update(sec=case["sec"], unit=case["wit"]["fam"], ci=0, target=target)
+                if err is None:
+                    p.violation("start/no-trap/%s/%s" % (tk, target), "start function traps in V8 (%s) but instantiate(target=%r) returns an instance" %
+                                (node_res.get("error"), target), wit)
+                elif err[0] == "crash":
+                    p.violation("start/kills-process/%s/%s/%s" % (tk, err[3].rsplit("/", 1)[-1], target),
+                                "start function traps in V8 (%s), ppci: %s" % (node_res.get("error"), err[1]), wit)
+                elif err[0] == "NotImplementedError":
+                    p.count("unsupported_%s" % target)
+                else:
+                    p.outcome(("start", "trap", tk))
+            return
         if node_res.get("stage") == "instantiate":
             # e.g. a start function that traps: nothing to compare here
             p.count("node_instantiate_failed")
@@ -1066,11 +1542,39 @@ def node_job(case):
     return node.job_for(case["m"], calls=case["calls"])
 
 
+_WARM = False
+
+
+def warm_native():
+    """Import (never run) what native instantiation needs, once per worker: the forked children that execute native code inherit the
+    loaded modules instead of importing the x86_64 back end anew for every case (about 1 s each)."""
+    global _WARM
+    if _WARM:
+        return
+    _WARM = True
+    try:
+        import importlib
+        from ppci.api import get_current_arch
+        get_current_arch()
+        for name in ("ppci.wasm.execution._native_instance", "ppci.utils.codepage", "ppci.utils.memory_page", "ppci.binutils.linker",
+                     "ppci.codegen.codegen", "ppci.codegen.registerallocator", "ppci.codegen.instructionselector", "ppci.codegen.peephole",
+                     "ppci.binutils.debuginfo", "ppci.binutils.outstream", "ppci.format.elf", "ppci.lang.python.ir2py", "ppci.irutils"):
+            try:
+                importlib.import_module(name)
+            except Exception:  # noqa
+                pass
+    except Exception:  # noqa
+        pass
+
+
 def worker(p, shard, tier):
     from vf.core import use_repo
     from vf.oracles import node
     use_repo()
-    cases = [build_case(item, tier) for item in shard]
+    warm_native()
+    cases = []
+    for item in shard:
+        cases += build_ext(item[1], tier) if item[0] == "Y" else [build_case(item, tier)]
     nres = node.run([node_job(c) for c in cases])
     for c, nr in zip(cases, nres):
         process_case(p, c, nr)
@@ -1084,7 +1588,7 @@ def run(ctx):
     ctx.note("work_items", len(items))
     ctx.note("targets", list(TARGETS))
     # heavy items first
-    order = {"C": 0, "M": 1, "N": 2, "X": 3}
+    order = {"C": 0, "M": 1, "N": 2, "X": 3, "Y": 4}
     items.sort(key=lambda it: order[it[0]])
     ctx.sample({"case": "N", "operator": "i32.rem_s", "args": ["i32:-2147483648", "i32:-1"], "reference": "V8 returns i32:0"})
     ctx.pmap(worker, items, extra=(ctx.tier,), nshards=len(items))
@@ -1109,6 +1613,8 @@ def replay(w):
     elif sec == "C":
         us = [u for u in skeleton_units(w["depth"]) if u[0] == w["unit"]]
         case = case_C(w["depth"], us, {"depth": w["depth"]})
+    elif sec == "Y":
+        case = rebuild_ext(w)
     else:
         case = dict(extra_cases())[w["name"]]()
         if case["units"] is not None:
